@@ -274,7 +274,21 @@ func HarnessC05HandlerWire() {
 	assume(code >= 1 && code <= 16)
 	msg := nondetString("message", bound("msgLen", 1, 2))
 	assumeNoOuterBlanks(msg)
-	mkErr := func() error { return NewError(code, errors.New(msg)) }
+	// a gateway-style handler may return an error whose metadata was copied
+	// from an upstream gRPC error and therefore contains protocol keys
+	upstreamMeta := nondetBool("errorMetaHasProtocolKeys")
+	if upstreamMeta {
+		assume(code == 9 && fail) // one code is enough for this dimension
+	}
+	mkErr := func() error {
+		e := NewError(code, errors.New(msg))
+		if upstreamMeta {
+			e.Meta().Set("Grpc-Status", "8")
+			e.Meta().Set("Grpc-Message", "upstream")
+			e.Meta().Set("X-Upstream", "u")
+		}
+		return e
+	}
 	var handler *Handler
 	if streaming {
 		handler = NewServerStreamHandler("/pkg.Svc/Method", func(ctx context.Context, req *Request[[]byte], s *ServerStream[[]byte]) error {
